@@ -156,7 +156,8 @@ PROPS.update({
     "C08": {
         "ties": ["Middleware", "Context", "Responder"],
         "streams": {"quick": [{"name": "c08", "n": 600}, MACH_QUICK],
-                    "thorough": [{"name": "c08", "n": 20000, "seeds": 4}, MACH_THOROUGH]},
+                    "thorough": [{"name": "c08", "n": 20000, "seeds": 4}, MACH_THOROUGH],
+                    "search": [{"name": "c08", "n": 2000, "seeds": 2}, {"name": "c18r", "n": 150, "seeds": 8}, MACH_THOROUGH]},
         "level": "proof",
         "assumptions": ["the wrapped handler is represented by an observable marker action in the 'only if' theorem",
                         "path.Join / url.QueryEscape are modelled (PathClean.lean, Url.lean) and diffed against the stdlib through the real middleware; the middleware sees the decoded path (r.URL.Path) that net/http hands it"],
@@ -178,7 +179,7 @@ PROPS.update({
     "C13": _mach_prop(["the wrapped handler is represented by an observable marker action in the gate theorems",
                        "the SMS enrolment code is compared with the code in the session, unbound to the number it was sent to (same root cause as known finding F9; monitored under site sms-enrol-unbound)",
                        "handler-level frame (no other route changes 2FA settings) is checked by the differential stream's store diff and the monitor, not by a theorem"]),
-    "C17": _mach_prop(["hash pre-image resistance (a hash does not contain its input) is a cryptographic assumption; the harness' byte scan checks it empirically on every store change and log line",
+    "C17": _mach_prop(search=[{"name": "c18r", "n": 150, "seeds": 8}], assumptions=["hash pre-image resistance (a hash does not contain its input) is a cryptographic assumption; the harness' byte scan checks it empirically on every store change and log line",
                        "every logger call site with its argument expressions is pinned by the regenerated logCalls_* tables (T1); the model proves where mailed tokens go and that the repaired confirm log line carries no request data"]),
 })
 
@@ -190,7 +191,7 @@ PROPS.update({
         "level": "proof",
         "assumptions": [SYMBOLIC,
                         "every call that leaves the library goes through one fault oracle in the model (storage, hasher, renderer, mailer, SMS sender, OAuth2 exchange / user details); the theorems quantify over all oracles",
-                        "proved: a failing Save / token use / hash / render stores nothing and is reported; save-before-session ordering for the one-time password, the remember token and recovery codes at both second-factor steps. Decided by the exhaustive fault enumeration through the correspondence check instead of a theorem: no panic over the dispatch table, no success response for an unsaved change per route",
+                        "proved: no panic on any route except the two documented middlewares (every handler, event handler and middleware, for every fault oracle); a failing Save / token use / hash / render stores nothing and is reported; save-before-session ordering for the one-time password, the remember token and recovery codes at both second-factor steps. Decided by the exhaustive fault enumeration through the correspondence check instead of a theorem: no success response for an unsaved change per route, nothing spent comes back",
                         "lock.Middleware / confirm.Middleware panic on a storage error by documented design: known finding K3"],
         "trusted_base": MACH_TB,
     },
@@ -212,11 +213,14 @@ PROPS.update({
 
 PROPS.update({
     "C20": {
-        "ties": ["Shared", "ClientState", "Events", "Responder", "Confirm", "Recover", "TwoFactor"],
+        # shared mutable state can be introduced in any function of any package: every tied unit is an obligation of C20
+        "ties": sorted(TIE_UNITS.keys()),
         "streams": {"quick": [{"name": "c20", "n": 8, "kind": "race", "extra": ["-rounds", "2"]},
-                              {"name": "c20-log", "n": 8, "kind": "race", "extra": ["-rounds", "2"]}, MACH_QUICK],
+                              {"name": "c20-log", "n": 8, "kind": "race", "extra": ["-rounds", "2"]},
+                              {"name": "c20-json", "n": 8, "kind": "race", "extra": ["-rounds", "2"]}, MACH_QUICK],
                     "thorough": [{"name": "c20", "n": 12, "kind": "race", "extra": ["-rounds", "4"], "seeds": 4},
-                                 {"name": "c20-log", "n": 12, "kind": "race", "extra": ["-rounds", "4"], "seeds": 4}, MACH_THOROUGH]},
+                                 {"name": "c20-log", "n": 12, "kind": "race", "extra": ["-rounds", "4"], "seeds": 4},
+                                 {"name": "c20-json", "n": 12, "kind": "race", "extra": ["-rounds", "4"], "seeds": 4}, MACH_THOROUGH]},
         "level": "proof",
         "assumptions": ["the model is sequential: it proves that a request depends on and changes nothing but the configuration, clock, storage, the sender's client state and the append-only sinks, and that storage operations on different accounts commute; data races and interleavings inside a request are decided by the race harness (Go race detector over concurrent clients against one instance built from the shipped defaults, SMTP and log mailers, mail goroutines on), which samples schedules rather than enumerating them",
                         "package-level variables of every package (the only places shared mutable state could live besides the instance) are pinned by the regenerated pkgVars_* tables",
